@@ -26,6 +26,9 @@ pub trait Tr {
     fn f(&self, x: u8) -> u32;
     fn g(&self, x: u8) -> u32;
     fn h(&self, x: u8) -> u32;
+    fn d(&self, x: u8) -> u32 {
+        900 + x as u32
+    }
 }
 """
 
@@ -104,6 +107,9 @@ def render_order(idx, t):
     mixed = [f"Mk::f.next_call(matching!({i})).returns({100 + i}u32)" if i % 2 == 0 else f"Mk::h.some_call(matching!({i})).returns({400 + i}u32).once()" for i in range(n)]
     exp_m = tree_text(t, mixed, [0])
     # ordered clauses with exact counts 0, 1, 2 (a zero count occupies no slot but stays a clause)
+    # ordered clauses with a response chain whose tail is left unquantified: clause i takes i % 3 + 1 slots
+    chained = [f"Mk::f.next_call(matching!({i})).returns({600 + i}u32).n_times({i % 3}).then().returns({700 + i}u32)" for i in range(n)]
+    exp_ch = tree_text(t, chained, [0])
     counted = [f"Mk::f.next_call(matching!({i})).returns({500 + i}u32).n_times({i % 3})" for i in range(n)]
     exp_c = tree_text(t, counted, [0])
     return f"""    pub fn run() -> Result<(), String> {{
@@ -179,6 +185,22 @@ def render_order(idx, t):
                 Err(msg) => return Err(format!("counted ordered clauses ({{zero_counted}} with count 0): verification after the declared calls failed: {{msg}}")),
             }}
         }}
+        // response chains with an unquantified tail inside ordered clauses: i % 3 head calls, one tail call
+        {{
+            let u = Unimock::new({exp_ch});
+            for i in 0..{n}u8 {{
+                for k in 0..(i % 3 + 1) {{
+                    let want = if k < i % 3 {{ 600 + i as u32 }} else {{ 700 + i as u32 }};
+                    match vh::obs::catch(|| u.f(i)) {{
+                        Ok(v) if v == want => {{}}
+                        other => return Err(format!("chained ordered clauses: call {{k}} of clause {{i}} (expected {{want}}): {{other:?}}")),
+                    }}
+                }}
+            }}
+            if let Err(msg) = vh::obs::catch(move || drop(u)) {{
+                return Err(format!("chained ordered clauses: verification after the declared calls failed: {{msg}}"));
+            }}
+        }}
         // staggered overlap: clause i accepts x >= {n}-1-i, so x = {n}-1-i is answered by clause i
         // exactly if the clauses are tried in declaration order at every position
         let u = Unimock::new({exp_s}).no_verify_in_drop();
@@ -217,11 +239,11 @@ def render_mixed(idx, arity, i, j, ordered_first, count=None):
 """
 
 
-def render_empty_stub(idx, arity, pos, mentioned_before=False):
+def render_empty_stub(idx, arity, pos, mentioned_before=False, provided=False):
     elems = []
     for p in range(arity):
         if p == pos:
-            elems.append("Mk::g.stub(|_each| {})")
+            elems.append("Mk::d.stub(|_each| {})" if provided else "Mk::g.stub(|_each| {})")
         elif mentioned_before and p == 0:
             # the stub's method already has a (non-empty) clause further left
             elems.append("Mk::g.each_call(matching!(9)).returns(9u32)")
@@ -291,6 +313,8 @@ def instances(tier):
             add(f"empty-stub:arity{arity}/{pos}", render_empty_stub(len(insts), arity, pos), {"kind": "empty-stub"})
             if pos > 0:
                 add(f"empty-stub-after-mention:arity{arity}/{pos}", render_empty_stub(len(insts), arity, pos, True), {"kind": "empty-stub"})
+            if arity <= 3:
+                add(f"empty-stub-on-provided-method:arity{arity}/{pos}", render_empty_stub(len(insts), arity, pos, False, True), {"kind": "empty-stub"})
     return insts
 
 
